@@ -20,9 +20,12 @@ Record case := MkCase {
   c_t0 : Z; c_t1 : Z;            (* wall clock (seconds) before and after the run *)
   c_comp : list (N * bool);      (* per compression method tried: does the output decompress
                                     to exactly the uncompressed archive? *)
+  c_ext : list bool;             (* referee, per member written (empty when not run): does the
+                                    object GNU tar extracts as root (-p --xattrs --numeric-owner)
+                                    carry exactly what the header read back says? *)
   c_obs : runres }.              (* exit status <> 0: RFailed; else the headers read back *)
 
-Definition obs := (runres * list (N * bool))%type.
+Definition obs := (runres * list (N * bool) * list bool)%type.
 
 (* ---------------------------------------------------------------- equality of observations *)
 Definition xattr_beq (a b : xattr) : bool := beq (fst a) (fst b) && beq (snd a) (snd b).
@@ -40,11 +43,15 @@ Definition runres_beq (a b : runres) : bool :=
   end.
 Definition comp_beq (a b : list (N * bool)) : bool :=
   list_beq (fun x y => (fst x =? fst y) && Bool.eqb (snd x) (snd y)) a b.
-Definition obs_beq (a b : obs) : bool := runres_beq (fst a) (fst b) && comp_beq (snd a) (snd b).
+Definition obs_beq (a b : obs) : bool :=
+  runres_beq (fst (fst a)) (fst (fst b)) && comp_beq (snd (fst a)) (snd (fst b))
+  && list_beq Bool.eqb (snd a) (snd b).
 
 (* ---------------------------------------------------------------- model *)
+(* compressors and GNU tar are outside the model: their laws (decompress . compress = id,
+   extraction reproduces the header) make every such flag true *)
 Definition model (c : case) : obs :=
-  (run (map mc_member (c_members c)), map (fun x => (fst x, true)) (c_comp c)).
+  (run (map mc_member (c_members c)), map (fun x => (fst x, true)) (c_comp c), map (fun _ => true) (c_ext c)).
 
 (* ---------------------------------------------------------------- reference semantics used by spec *)
 (* chmod(1), GNU reading (DESIGN Appendix D) *)
@@ -224,13 +231,14 @@ Definition acceptable (m : mcase) : bool :=
      end.
 
 Definition spec (c : case) (o : obs) : bool :=
-  match fst o with
+  match fst (fst o) with
   | ROutput hs => members_ok c [] (c_members c) hs
   | RFailed => negb (forallb acceptable (c_members c))
   | _ => false
   end
-  && forallb (fun x : N * bool => snd x) (snd o)
-  && list_beq N.eqb (map fst (snd o)) (map fst (c_comp c)).
+  && forallb (fun x : N * bool => snd x) (snd (fst o))
+  && list_beq N.eqb (map fst (snd (fst o))) (map fst (c_comp c))
+  && forallb (fun b : bool => b) (snd o) && (length (snd o) =? length (c_ext c))%nat.
 
 (* ---------------------------------------------------------------- domain *)
 Definition no_nul (b : bytes) : bool := nosepb NUL b.
@@ -311,7 +319,7 @@ Definition wf (c : case) : bool :=
 Definition kf (c : case) : N := 0%N.
 
 Definition verdict (c : case) : N :=
-  mkverdict (wf c) (obs_beq (model c) (c_obs c, c_comp c)) (spec c (c_obs c, c_comp c)) (kf c).
+  mkverdict (wf c) (obs_beq (model c) (c_obs c, c_comp c, c_ext c)) (spec c (c_obs c, c_comp c, c_ext c)) (kf c).
 
 (* ---------------------------------------------------------------- diagnosis (replay files, debugging) *)
 (* per member: name, the header fields (1 name 2 type 3 mode 4 uid 5 gid 6 mtime 7 size 8 link
@@ -342,9 +350,9 @@ Fixpoint diag_members (c : case) (prev : list (mcase * header)) (ms : list mcase
     :: diag_members c (match oh with Some h => prev ++ [(m, h)] | None => prev end) mr (tl mo) (tl oo)
   end.
 Definition diag (c : case) :=
-  let mo := match fst (model c) with ROutput l => l | _ => [] end in
+  let mo := match fst (fst (model c)) with ROutput l => l | _ => [] end in
   let oo := match c_obs c with ROutput l => l | _ => [] end in
-  (match fst (model c) with ROutput _ => 1 | RFailed => 2 | RTruncated => 3 | RDiverged => 4 end,
+  (match fst (fst (model c)) with ROutput _ => 1 | RFailed => 2 | RTruncated => 3 | RDiverged => 4 end,
    match c_obs c with ROutput _ => 1 | RFailed => 2 | RTruncated => 3 | RDiverged => 4 end,
    forallb acceptable (c_members c),
    diag_members c [] (c_members c) mo oo).
